@@ -36,7 +36,7 @@ def gen_route(rng):
 
 
 def gen_cond(rng):
-    k = rng.choice(["prefix", "prefix", "neighbor", "nexthop", "aslen", "commcount", "origin", "rtype", "comm", "comm"])
+    k = rng.choice(["prefix", "prefix", "neighbor", "nexthop", "aslen", "commcount", "origin", "rtype", "comm", "comm", "commre"])
     if k == "prefix":
         es = []
         for _ in range(rng.choice([1, 1, 2, 3])):
@@ -68,7 +68,18 @@ def gen_cond(rng):
         return ("origin", rng.randrange(3))
     if k == "rtype":
         return ("rtype", rng.choice([1, 2, 3]))
+    if k == "commre":
+        # members that are regular expressions: outside Policy.Interp (C13 models the matchers); decided here by the oracle
+        return ("commre", rng.randrange(3), rng.sample(COMM_RES, rng.choice([1, 1, 2])))
     return ("comm", rng.randrange(3), rng.sample(COMMS, rng.choice([1, 1, 2, 3])))
+
+
+# 100:1, 100:2, 100:100 and 65000:100 are the communities in play
+COMM_RES = ["^100:[12]$", "^10[0-9]:100$", "6500.:1.0", "^(100|65000):100$", "^100:1$", "^6500[0-9]:100$", "^.*:2$", "^100:", "^[0-9]+:100$", "^(65004|65005):[12]00$"]
+
+
+def has_commre(c):
+    return any(cd[0] == "commre" for p in c.get("policies", []) for cs, _, _ in p for cd in cs)
 
 
 def gen_action(rng, used):
@@ -96,8 +107,9 @@ def gen_case(rng):
             conds = []
             for _ in range(rng.choice([0, 1, 1, 2, 3])):
                 c = gen_cond(rng)
-                if c[0] not in kinds:
-                    kinds.add(c[0])
+                kd = "comm" if c[0] == "commre" else c[0]          # one community set per statement
+                if kd not in kinds:
+                    kinds.add(kd)
                     conds.append(c)
             used = set()
             acts = [a for a in (gen_action(rng, used) for _ in range(rng.choice([0, 1, 1, 2]))) if a]
@@ -131,6 +143,8 @@ def line_of(c):
             return "(%s %d %d)" % (k, cd[1], cd[2])
         if k in ("origin", "rtype"):
             return "(%s %d)" % (k, cd[1])
+        if k == "commre":
+            return "(commre %d %s)" % (cd[1], " ".join(x.encode().hex() for x in cd[2]))
         return "(comm %d %s)" % (cd[1], " ".join(map(str, cd[2])))
 
     def act(a):
@@ -171,7 +185,11 @@ def holds(r, cd):
     if k == "rtype":
         t = 3 if r["neighbor"] is None else (1 if r["ibgp"] else 2)
         return t == cd[1]
-    inset = [x in r["comms"] for x in cd[2]]
+    if k == "commre":
+        import re
+        inset = [any(re.search(p, "%d:%d" % (x >> 16, x & 0xffff)) for x in r["comms"]) for p in cd[2]]
+    else:
+        inset = [x in r["comms"] for x in cd[2]]
     return all(inset) if cd[1] == 1 else ((not any(inset)) if cd[1] == 2 else any(inset))
 
 
@@ -261,7 +279,7 @@ def run(ctx):
     aliases = [{"alias": k, "policies": [], "default": True} for k in ("std", "ext", "large")]
     cases += aliases
     cov = core.differential(ctx, "c10", proof, cases, line_of, oracle, shrink_candidates=shrink_candidates,
-                            model_applies=lambda c: "alias" not in c,
+                            model_applies=lambda c: "alias" not in c and not has_commre(c),
                             nontrivial=lambda c: "alias" in c or sum(len(cs) for p in c["policies"] for cs, _, _ in p) >= 1,
                             more_cases=lambda: [gen_case(ctx.rng) for _ in range(n)],
                             correspondence_name="RoutingPolicy.ApplyPolicy/Policy.Apply/Statement.Apply/conditions/actions vs Policy.Interp.apply_policy")
@@ -278,7 +296,8 @@ def run(ctx):
                 "non-trivial = at least one condition; distinct by line",
         "trusted_base": core.TRUSTED_COMMON + ["Python interpreter of the documented policy model in checks/c10.py"],
     })
-    return ctx.finish(pc, ["regular-expression AS_PATH / community / ext-community / large-community sets are C13's subject and not generated here",
+    return ctx.finish(pc, ["regular-expression AS_PATH / ext-community / large-community sets are C13's subject and not generated here; community sets with regular-expression members ARE generated, outside the model: "
+                           "the direct oracle (Python re on the decimal AS:local text) decides those cases",
                            "RPKI validation, AfiSafiIn, next-hop actions and the API round trip of policy objects (ListPolicy = configured) are not covered",
                            "policy modifications are written in the fixed order the configuration applies them (community, MED, AS_PATH prepend, LOCAL_PREF)"])
 
